@@ -327,10 +327,37 @@ fn config_case(ctx: &Ctx, case: u64, r: &mut Rng, rep: &mut Report, space: &[Opt
         return;
     }
     // sequences of up to 3 changes
-    let n_changes = if (case / 2) < space.len() as u64 { 1 } else { r.range(1, 3) };
+    let mut n_changes = if (case / 2) < space.len() as u64 { 1 } else { r.range(1, 3) };
     let mut o = opt;
+    // chained changes of one interacting group, each naming only part of it: chunk sizes that suit one chunker only,
+    // then the other chunker alone (or the other way round) - the second change must be judged against what is STORED
+    let chain: Option<Vec<Opt>> = if (case / 2) >= space.len() as u64 && r.chance(1, 3) {
+        let size = *r.pick(&[8000u64, 3000, 777, 5, 1 << 20, 4096]);
+        let mut a = Opt::default();
+        a.chunker = Some(1);
+        a.chunk_size = Some(size);
+        let mut b = Opt::default();
+        b.chunker = Some(0);
+        let mut c = Opt::default();
+        c.chunk_size = Some(*r.pick(&[8000u64, 12345, 4096, 1]));
+        let mut d = Opt::default();
+        d.chunk_min = Some(*r.pick(&[0u64, 1, 63, 5000, 1 << 30]));
+        Some(match r.below(3) {
+            0 => vec![a, b],
+            1 => vec![a, b, c],
+            _ => vec![a, d, b],
+        })
+    } else {
+        None
+    };
+    if let Some(ch) = &chain {
+        n_changes = ch.len() as u64;
+        rep.count("chained_partial_changes", 1);
+    }
     for step in 0..n_changes {
-        if step > 0 {
+        if let Some(ch) = &chain {
+            o = ch[step as usize].clone();
+        } else if step > 0 {
             o = random_opt(r);
             if o.is_heavy() {
                 continue;
